@@ -80,6 +80,9 @@ struct World {
     std::optional<SP> v[NV];
     std::optional<SPI> t;
     int t_value = 0;
+    // a driver coroutine awaits the typed slot and has not been resumed yet (coroutine mode: it sits in the ready queue until the
+    // outer activation returns): the awaited object must stay where it is - no further operation touches the slot
+    bool t_await_in_flight = false;
     std::vector<std::unique_ptr<int>> counters;
     std::vector<std::unique_ptr<int>> drivers;  // completion counters of driver coroutines
     std::vector<std::unique_ptr<int>> cells;  // values received by co_await on the typed slot
@@ -166,12 +169,12 @@ static bool enabled(const World &w, const OpDef &o, int maxh) {
         case DESTROYUNW: return w.v[o.a].has_value();
         case TPEEK: return w.t.has_value();
         case NEWT: return !w.t && w.live() < maxh;
-        case TADD: return w.t.has_value() && w.live() < maxh;
+        case TADD: return w.t.has_value() && !w.t_await_in_flight && w.live() < maxh;
         case TMOVE:
         case TPOP:
         case TDESTROY:
-        case TAWAIT: return w.t.has_value();
-        case TTOVOID: return w.t.has_value() && w.v[0].has_value();
+        case TAWAIT: return w.t.has_value() && !w.t_await_in_flight;
+        case TTOVOID: return w.t.has_value() && !w.t_await_in_flight && w.v[0].has_value();
     }
     return false;
 }
@@ -271,24 +274,46 @@ static void apply(World &w, const OpDef &o) {
             w.cells.emplace_back(new int(-1));
             w.expected_values.push_back(w.t_value);
             drive_await_typed(&*w.t, w.drivers.back().get(), w.cells.back().get()).h.resume();
+            if (*w.drivers.back() == 0) w.t_await_in_flight = true;
             break;
         }
     }
 }
 
+static std::string describe(bool coro_mode, const std::vector<int> &h);
+// The canonical key looks at three implementation details (count/heap word and capacity of a suspend point, length of the thread's
+// ready queue). They are read through templates: if the library stops having members of these names the key falls back to what the
+// public interface shows, declares itself imprecise, and the search then keys every history by its own text (no merging at all:
+// still sound, merely not exhaustive to the same depth) - a renamed private member must not turn into an alarm.
+static bool g_key_imprecise = getenv("C06_FORCE_IMPRECISE_KEY") != nullptr;  // the variable exercises the fallback on an unchanged library
+template <typename Q>
+static uint64_t ready_queue_len(const Q *q) {
+    if constexpr (requires { q->_queue.size(); })
+        return (uint64_t)std::min<size_t>(q->_queue.size(), 3);  // 0, 1, 2, many
+    else {
+        g_key_imprecise = true;
+        return 0;
+    }
+}
+template <typename S>
+static uint64_t slot_key(const S *p) {
+    if (!p) return (uint64_t)0;
+    if constexpr (requires { p->_count_flag; p->_ext._capacity; }) {
+        uint64_t cnt = p->_count_flag >> 1, heap = p->_count_flag & 1;
+        uint64_t cap = heap ? p->_ext._capacity : 0;
+        return 1 + cnt * 4 + heap * 2 + cap * 1024;
+    } else {
+        g_key_imprecise = true;
+        return 1 + (uint64_t)p->size() * 4;
+    }
+}
 static uint64_t key_of(const World &w, bool coro_mode) {
     uint64_t k = coro_mode ? 77 : 11;
     // in coroutine mode what was readied so far still waits in the thread's ready queue: part of the state
     // (create_suspend_point and nested queue sessions look at it)
-    if (coro_mode && cocls::coro_queue::instance) k = seqx::mix(k, (uint64_t)std::min<size_t>(cocls::coro_queue::instance->_queue.size(), 3) + 1000);  // 0, 1, 2, many
-    auto slot = [&](const SP *p) {
-        if (!p) return (uint64_t)0;
-        uint64_t cnt = p->_count_flag >> 1, heap = p->_count_flag & 1;
-        uint64_t cap = heap ? p->_ext._capacity : 0;
-        return 1 + cnt * 4 + heap * 2 + cap * 1024;
-    };
-    for (int i = 0; i < NV; i++) k = seqx::mix(k, slot(w.v[i] ? &*w.v[i] : nullptr));
-    k = seqx::mix(k, slot(w.t ? static_cast<const SP *>(&*w.t) : nullptr) + 5);
+    if (coro_mode && cocls::coro_queue::instance) k = seqx::mix(k, ready_queue_len(cocls::coro_queue::instance) + 1000);
+    for (int i = 0; i < NV; i++) k = seqx::mix(k, slot_key(w.v[i] ? &*w.v[i] : (const SP *)nullptr));
+    k = seqx::mix(k, slot_key(w.t ? static_cast<const SP *>(&*w.t) : (const SP *)nullptr) + 5);
     return k;
 }
 
@@ -313,6 +338,7 @@ static uint64_t run_history(seqx::Runner &R, bool coro_mode, const std::vector<i
                 R.step();
             }
             key = key_of(w, coro_mode);
+            if (g_key_imprecise) key = seqx::mix(key, seqx::hash_str(describe(coro_mode, h)));
             if (next_enabled) {
                 seqx::NoCount nc;
                 for (size_t i = 0; i < g_ops.size(); i++)
@@ -323,12 +349,13 @@ static uint64_t run_history(seqx::Runner &R, bool coro_mode, const std::vector<i
             if (w.t && static_cast<TV>(*w.t).v != w.t_value) R.fail("sp/typed-value", "typed suspend point carries %d, producer supplied %d", static_cast<TV>(*w.t).v, w.t_value);
             // teardown: plain destruction of whatever is left
             for (auto &s : w.v) s.reset();
-            w.t.reset();
+            if (!w.t_await_in_flight) w.t.reset();
         };
         if (coro_mode)
             cocls::coro_queue::install_queue_and_call(body);  // everything readied is deferred until the outer activation returns
         else
             body();
+        w.t.reset();  // an awaited typed slot outlives the driver that reads its value
         for (size_t i = 0; i < w.counters.size(); i++)
             if (*w.counters[i] != 1) {
                 R.fail(*w.counters[i] == 0 ? "sp/handle-lost" : "sp/handle-resumed-twice", "handle #%zu was resumed %d times", i, *w.counters[i]);
